@@ -284,6 +284,14 @@ def main():
     ap.add_argument("--setup", action="store_true")
     a = ap.parse_args()
     seed = int(os.environ.get("VERIF_SEED", "0") or 0)
+    # watchdog: a run that does not finish is an infrastructure problem (exit 2), never a verdict
+    import signal
+
+    def _timeout(signum, frame):
+        print("INFRA: timeout", file=sys.stderr)
+        os._exit(2)
+    signal.signal(signal.SIGALRM, _timeout)
+    signal.alarm(int(os.environ.get("VERIF_TIMEOUT_S", "1500" if a.tier == "quick" else "10800")))
     try:
         if a.setup:
             return setup()
